@@ -737,6 +737,25 @@ func c11Results(p *Program, r *Report, m *vmModel) {
 		if sg.Params().Len() == 1 && sg.Params().At(0).Type().String() == "[]reflect.Value" && sg.Results().Len() == 1 && isReflectValue(sg.Results().At(0).Type()) && len(fn.Blocks) > 0 {
 			good, why := appendsOncePerElement(fn)
 			r.Check(good, "C11.R3", fn.Name()+"|one element per result", p.Pos(fn.Pos()), "a range over all results with exactly one append on every path of the body", why)
+			// a result is handed over as it is: only an interface wrapper is removed, a pointer stays a pointer
+			for _, b := range fn.Blocks {
+				for _, in := range b.Instrs {
+					c, ok := in.(*ssa.Call)
+					if !ok || reflectMethod(c) != "Elem" {
+						continue
+					}
+					onlyIface := false
+					for d := b; d != nil && d.Idom() != nil; d = d.Idom() {
+						id := d.Idom()
+						if iff, ok := id.Instrs[len(id.Instrs)-1].(*ssa.If); ok {
+							if k, K := kindCmp(iff.Cond); k != nil && K == 20 && edgeOnly(id, 0, d) {
+								onlyIface = true
+							}
+						}
+					}
+					r.Check(onlyIface, "C11.R3", fn.Name()+"|results keep their dynamic type", p.Pos(c.Pos()), "only an interface wrapper is removed from a result", "a result is dereferenced on a path that is not restricted to interface values (a pointer result would reach the script as a copy of what it points to)")
+				}
+			}
 		}
 	}
 }
@@ -1363,6 +1382,73 @@ func c11Forwarding(p *Program, r *Report, m *vmModel) {
 		h := m.handlers[role]["MemberExpr"]
 		if h == nil {
 			continue
+		}
+		// the field found by name is addressed by its whole index path (promoted fields of embedded structs have a path of several steps)
+		for _, b := range h.Blocks {
+			for _, in := range b.Instrs {
+				c, ok := in.(*ssa.Call)
+				if !ok || !c.Call.IsInvoke() || c.Call.Method.Name() != "FieldByName" {
+					continue
+				}
+				whole, partial := false, ""
+				var walk func(v ssa.Value, depth int)
+				walk = func(v ssa.Value, depth int) {
+					if depth > 5 {
+						return
+					}
+					for _, ref := range *v.Referrers() {
+						switch x := ref.(type) {
+						case *ssa.Extract:
+							if x.Index == 0 {
+								walk(x, depth+1)
+							}
+						case *ssa.Field:
+							if fieldOfVal(x) != nil && fieldOfVal(x).Name() == "Index" {
+								for _, r2 := range *x.Referrers() {
+									switch y := r2.(type) {
+									case *ssa.Call:
+										if reflectMethod(y) == "FieldByIndex" {
+											whole = true
+										}
+									case *ssa.IndexAddr:
+										partial = p.Pos(y.Pos())
+									case *ssa.Index:
+										partial = p.Pos(y.Pos())
+									}
+								}
+							}
+						case *ssa.Store:
+							if al, ok := x.Addr.(*ssa.Alloc); ok {
+								for _, r2 := range *al.Referrers() {
+									switch y := r2.(type) {
+									case *ssa.FieldAddr:
+										if fieldOfAddr(y).Name() == "Index" {
+											for _, r3 := range *y.Referrers() {
+												if u, ok := r3.(*ssa.UnOp); ok {
+													for _, r4 := range *u.Referrers() {
+														switch z := r4.(type) {
+														case *ssa.Call:
+															if reflectMethod(z) == "FieldByIndex" {
+																whole = true
+															}
+														case *ssa.IndexAddr:
+															partial = p.Pos(z.Pos())
+														}
+													}
+												}
+											}
+										}
+									}
+								}
+							}
+						}
+					}
+				}
+				walk(c, 0)
+				n++
+				r.Check(whole && partial == "", "C11.R6", h.Name()+"|field addressed by its whole index path", p.Pos(c.Pos()), "FieldByIndex(field.Index)",
+					"the field found by name is not addressed with FieldByIndex on its whole index path (a single step of the path is used at "+partial+"): a field promoted from an embedded struct is read or written at the embedded struct instead")
+			}
 		}
 		var lookups []*ssa.Call
 		for _, b := range h.Blocks {
